@@ -22,6 +22,9 @@ func runC18(c *Ctx) {
 	c.Rule("R18d", "per-statement derivation in DevLoader.nextStmts: ExecContext ≺ inspect ≺ RealmDiff(state before, state after) ≺ append of a Change carrying this statement ≺ state advanced; DevLoader.LoadChanges uses the whole-file shortcut `first` only under len(base) == 0 for the first file", 6)
 	c.Rule("R18e", "the lint runner appends every analyzer error of a file to the file report and keeps analysing the other analyzers", 2)
 
+	c.Rule("R18f", ruleTextWindowGuard, 1)
+	checkWindowGuard(c, "R18f")
+
 	// ---- R18a
 	for _, pp := range []string{modRoot + "/sql/mysql/mysqlcheck", modRoot + "/sql/postgres/postgrescheck", modRoot + "/sql/sqlite/sqlitecheck"} {
 		fi := c.Func("R18a", pp, "", "analyzers")
